@@ -1,6 +1,8 @@
 """C14 check configuration (see lib/runner.py for the meaning of the keys)."""
 
 _OVERLAY = {"internal/rules/zz_verif_c14_test.go": "c14/c14_test.go"}
+_OVERLAY_REAL = dict(_OVERLAY, **{"internal/rules/zz_verif_c14_real_test.go": "c14/c14_real_test.go"})
+_OVERLAY_WIRING = dict(_OVERLAY, **{"internal/rules/zz_verif_c14_wiring_test.go": "c14/c14_wiring_test.go"})
 
 P = {
     "id": "C14",
@@ -18,11 +20,15 @@ P = {
     }, {
         "name": "ruleset", "pkg": "./internal/rules", "test": "TestVerifC14RuleSet", "overlay": _OVERLAY,
         "eval_module": "Run.Eval_C14", "check_term": "check_rs",
-        "n_quick": 800, "n_thorough": 20000, "findings": {}, "shard": 100,
+        "n_quick": 600, "n_thorough": 15000, "findings": {}, "shard": 80,
     }, {
-        "name": "realfactory", "pkg": "./internal/rules", "test": "TestVerifC14Real", "overlay": _OVERLAY,
+        "name": "realfactory", "pkg": "./internal/rules", "test": "TestVerifC14Real", "overlay": _OVERLAY_REAL,
         "eval_module": "Run.Eval_C14", "check_term": "check_ids",
         "n_quick": 800, "n_thorough": 20000, "findings": {}, "shard": 400,
+    }, {
+        "name": "wiring", "pkg": "./internal/rules", "test": "TestVerifC14Wiring", "overlay": _OVERLAY_WIRING,
+        "eval_module": "Run.Eval_C14", "check_term": "check_rs",
+        "n_quick": 200, "n_thorough": 5000, "findings": {}, "shard": 80,
     }],
     "rule": "tbd",
     "anchors": ["internal/rules/rule_factory_impl.go", "internal/config/default_rule.go", "internal/rules/config/rule.go"],
